@@ -75,6 +75,17 @@ add("C20", "fault_enumeration",
     "A fault counts as rejected when the call raises before returning. Base populations are the library households (2 quick, 3 thorough) on one date.",
     "exhaustive enumeration of single faults and fault pairs at every position (fault-injection model checking of the input validation)", "2/C20")
 
+add("C09", "model_checking",
+    "Two exhaustive enumerations over programs, both executing the real make_vectorizable: (A) every internal policy function, with each "
+    "atomic test turned into a harness-controlled choice so that all 2^m control-flow paths (m <= 12) are run in scalar form and, at once, in "
+    "array form and compared position by position; (B) every program of the documented restricted style up to depth 2 (if/elif/else with "
+    "assignment, augmented assignment or return, nested if, conditional expressions, and/or/not, min/max/sum/any/all) on all 216 argument "
+    "combinations. Array forms must agree everywhere or fail loudly. (C) make_vectorizable on every real function must leave module "
+    "globals, the rule registry, the function object and a later simulation unchanged.",
+    "Any exception at rewrite or call time counts as a loud failure. Argument values in (A) are per-position distinct defaults (paths are "
+    "exhaustive, values are not). Programs deeper than 2 are not covered.",
+    "exhaustive enumeration of control-flow paths of every rule and of all programs of a bounded grammar, scalar vs. rewritten form", "2/C09")
+
 NOT_APPLICABLE = []
 
 
